@@ -490,6 +490,11 @@ class SourceCatalog:
         for attr in init_attr:
             setattr(newcls, attr, getattr(self, attr))
 
+        # the new object must not share its mutable extra-property
+        # registry (or meta) with the parent
+        newcls._extra_properties = list(self._extra_properties)
+        newcls.meta = self.meta.copy()
+
         # _labels determines ordering and isscalar
         attr = '_labels'
         setattr(newcls, attr, getattr(self, attr)[index])
